@@ -541,7 +541,7 @@ func c07Readers(c *Ctx, pcType *types.TypeName) {
 	c.Floor("C07.v-auto-refresh-async", 1)
 
 	// snapshot pointer loaded once per read operation
-	loadPat := Or(Call("pcache.ProviderCache).loadReadOnly"), Call("atomic.Pointer[pcache.readOnly]).Load[pcache.readOnly]"))
+	loadPat := Or(c.RoleCall("pcache.load"), Call("atomic.Pointer[pcache.readOnly]).Load[pcache.readOnly]"))
 	for _, f := range c.Funcs(pcachePkg) {
 		if !isReaderSide(c, f.SSA) {
 			continue
